@@ -394,3 +394,34 @@ func (gc *GatedConn) sendJoin() {
 func (p *Peer) SendPlugin(channel string, data []byte) error {
 	return p.Send(&plugin.Message{Channel: channel, Data: data})
 }
+
+// NewClientWithHook is NewClient with a function that runs on the client's reader goroutine
+// before the default reaction to each received packet. It may block, which makes the fake
+// client a slow one (e.g. one that takes its time to acknowledge FinishedUpdate).
+func (h *Harness) NewClientWithHook(o ClientOpts, pre func(c *Client, r *Rec)) *Client {
+	proxyEnd, clientEnd := lib.Pipe()
+	if o.RemoteAddr != nil {
+		proxyEnd.SetAddrs(&net.TCPAddr{IP: net.IPv4(10, 0, 0, 1), Port: 25565}, o.RemoteAddr)
+	} else {
+		h.mu.Lock()
+		h.nextPort++
+		port := h.nextPort
+		h.mu.Unlock()
+		proxyEnd.SetAddrs(&net.TCPAddr{IP: net.IPv4(10, 0, 0, 1), Port: 25565}, &net.TCPAddr{IP: net.IPv4(10, 1, byte(port>>8), byte(port)), Port: port})
+	}
+	c := &Client{H: h, AutoKeepAlive: true, joinCh: make(chan struct{}, 64), successCh: make(chan struct{}), handleDone: make(chan struct{})}
+	c.Peer = newPeer("client", clientEnd, proto.ClientBound, proto.ServerBound, o.Protocol)
+	c.Peer.OnPacket = func(r *Rec) {
+		if pre != nil {
+			pre(c, r)
+		}
+		c.onPacket(r)
+	}
+	c.Secret = make([]byte, 16)
+	h.mu.Lock()
+	h.clients = append(h.clients, c)
+	h.mu.Unlock()
+	c.start()
+	go func() { h.P.HandleConn(proxyEnd); close(c.handleDone) }()
+	return c
+}
